@@ -175,9 +175,38 @@ func c17Resize(c *core.Ctx) {
 			adjs = append(adjs, adj{call, "acquire", litOf(call)})
 		}
 	}
-	if litOf(readStmt) != nil || litOf(writeStmt) != nil {
+	if rl, wl := litOf(readStmt), litOf(writeStmt); rl != nil || wl != nil {
+		// a function literal started with `go` runs at some later time: a read or store inside it
+		// cannot be in the critical section of the other half that stays in SetMaxCount proper
+		pmAll := parentMap(f.Body)
+		isGo := func(l *ast.FuncLit) bool {
+			if l == nil {
+				return false
+			}
+			for cur := l; cur != nil; cur = litOf(pmAll[cur]) {
+				if call, ok := pmAll[cur].(*ast.CallExpr); ok && ast.Unparen(call.Fun) == ast.Expr(cur) {
+					if _, ok := pmAll[call].(*ast.GoStmt); ok {
+						return true
+					}
+				}
+				if pmAll[cur] == nil {
+					break
+				}
+			}
+			return false
+		}
+		switch {
+		case rl != wl && isGo(wl):
+			c.Violate("R-C17-4", cons+"|read-modify-write in one critical section", pos(c, writeStmt),
+				"the new capacity is stored by the background goroutine, i.e. in a different critical section (and at an unknown later time) than the one that read the old capacity: a second SetMaxCount that overlaps a pending resize computes its delta from a stale realCapacity and a slow resize later overwrites the newer value, so the deltas no longer telescope and the effective cap drifts away from maxConnections")
+			return
+		case rl != wl && isGo(rl):
+			c.Violate("R-C17-4", cons+"|read-modify-write in one critical section", pos(c, readStmt),
+				"the old capacity is read by the background goroutine, i.e. in a different critical section (and at an unknown later time) than the one that stores the new capacity: the goroutine can read the value just stored (delta 0) or that of a later call, so the effective cap drifts away from maxConnections")
+			return
+		}
 		c.Undecide("R-C17-4", cons+"|read-modify-write in one critical section", pos(c, writeStmt),
-			"the realCapacity read/store sit inside a function literal: not modelled")
+			"the realCapacity read and store sit inside a function literal that is not a goroutine of its own (immediately-invoked / deferred closure): not modelled")
 		return
 	}
 	isAdj := map[*ast.CallExpr]adj{}
